@@ -10,6 +10,7 @@ import Model.Vector
 import Lemmas.Vector
 import Lemmas.Rank
 import Lemmas.Key
+import Lemmas.VectorOrd
 
 namespace DI.C11
 
@@ -51,5 +52,133 @@ example : rankMaxSpec Key.le [some (.i 1), some (.i 1), none, none, some (.i 0)]
     = [3, 3, 5, 5, 1] := by decide
 example : [some (Key.i 3), some (.i 2), some (.i 1), some (.i 1), none].Pairwise
     (fun a b => ordDir Key.le true a b) := by decide
+
+/-! ### rank 'ordinal' -/
+
+/-- rank 'ordinal' breaks ties by position: position by position the rank is one plus the
+    number of elements ordered strictly before the element plus the number of *earlier*
+    equivalent elements; missing values are ranked after all others, in position order
+    (`rankOrdSpec`, Lemmas/VectorOrd.lean).  Covers the empty and the all-missing guards of
+    `Vector.rank`.  Only totality and transitivity of the order are needed. -/
+theorem rank_ordinal_spec {le : κ → κ → Bool} (h : PreOrd le) (one : κ) (xs : List (Option κ)) :
+    vrank le one .ordinal xs = rankOrdSpec le xs :=
+  vrank_ordinal_spec h one xs
+
+/-- ... giving a permutation of `1..n`. -/
+theorem rank_ordinal_perm {le : κ → κ → Bool} (h : PreOrd le) (one : κ) (xs : List (Option κ)) :
+    (vrank le one .ordinal xs).Perm (List.range' 1 xs.length) :=
+  vrank_ordinal_perm h one xs
+
+/-- ... consistent with sort: the element the ascending `Vector.sort` puts at place `k` (0-based)
+    has ordinal rank `k + 1`.  Holds for both raw-sort conventions (`naFirst = false`: NaN / NaT
+    sort last; `naFirst = true`: `""` sorts first and is relocated) and for every vector: for
+    an entirely missing vector `rank` replaces the values by a constant, and both `sort` and the
+    ordinal ranks are then in position order. -/
+theorem rank_ordinal_consistent_with_sort {le : κ → κ → Bool} (h : PreOrd le) (one : κ)
+    (naFirst : Bool) (xs : List (Option κ)) :
+    (vsort le naFirst false xs).map (fun i => (vrank le one .ordinal xs)[i]!)
+      = List.range' 1 xs.length :=
+  vrank_ordinal_sort h one naFirst xs
+
+/-- the same as an equation between the two results: the ordinal ranks are the inverse
+    permutation (plus one) of the ascending sort. -/
+theorem rank_ordinal_inverse_of_sort {le : κ → κ → Bool} (h : PreOrd le) (one : κ)
+    (naFirst : Bool) (xs : List (Option κ)) :
+    vrank le one .ordinal xs = invPermPlus1 (vsort le naFirst false xs) := by
+  rw [vsort_asc_eq_argsort h]; exact vrank_ordinal_eq_invPerm h one xs
+
+/-! ### stability of sort -/
+
+omit [DecidableEq κ] in
+/-- ascending `Vector.sort` *is* the stable sort for the order "missing value last", whichever
+    way the raw NumPy sort treats the missing value. -/
+theorem vsort_asc_is_stable_sort {le : κ → κ → Bool} (h : PreOrd le) (naFirst : Bool)
+    (xs : List (Option κ)) :
+    vsort le naFirst false xs = argsort (leNaLast le) xs :=
+  vsort_asc_eq_argsort h naFirst xs
+
+omit [DecidableEq κ] in
+/-- stability, ascending: of two output places holding equivalent values (equivalent
+    non-missing values, or two missing values) the one that was earlier in the input comes
+    first. -/
+theorem vsort_stable {le : κ → κ → Bool} (h : PreOrd le) (naFirst : Bool) (xs : List (Option κ)) :
+    (vsort le naFirst false xs).Pairwise
+      (fun i j => leNaLast le xs[j]! xs[i]! = true → i < j) :=
+  vsort_asc_stable h naFirst xs
+
+omit [DecidableEq κ] in
+/-- descending: the raw stable sort is reversed (`new[::-1]`), so equivalent non-missing values
+    come out in *reverse* input order. -/
+theorem vsort_desc_ties_reversed {le : κ → κ → Bool} (h : PreOrd le) (naFirst : Bool)
+    (xs : List (Option κ)) :
+    (vsort le naFirst true xs).Pairwise
+      (fun i j => ∀ a b, xs[i]! = some a → xs[j]! = some b → le a b = true → j < i) :=
+  vsort_desc_ties h naFirst xs
+
+/-! ### object vectors -/
+
+/-- object-vector `Vector.sort` (`sorted(key=str, reverse=dir<0)`, missing values relocated)
+    returns a permutation of the positions. -/
+theorem vsortObj_perm {σ : Type} (le : σ → σ → Bool) (desc : Bool) (keys : List σ)
+    (na : List Bool) :
+    (vsortObj le desc keys na).Perm (List.range keys.length) :=
+  vsortObj_perm' le desc keys na
+
+/-- ... the keys of the non-missing part are ordered ascending / descending and missing values
+    are last in both directions: the cells (`none` where the mask says missing, else the key)
+    read at the returned positions are ordered by the same `ordDir` as for `vsort_ordered`. -/
+theorem vsortObj_ordered {σ : Type} [Inhabited σ] {le : σ → σ → Bool} (h : PreOrd le)
+    (desc : Bool) (keys : List σ) (na : List Bool) :
+    ((vsortObj le desc keys na).map (objCell keys na)).Pairwise
+      (fun a b => ordDir le desc a b) :=
+  vsortObj_ordered' h desc keys na
+
+/-- ... missing last, stated on the mask alone. -/
+theorem vsortObj_missing_last {σ : Type} (le : σ → σ → Bool) (desc : Bool) (keys : List σ)
+    (na : List Bool) :
+    (vsortObj le desc keys na).Pairwise (fun i j => na[i]! = true → na[j]! = true) :=
+  vsortObj_na_last le desc keys na
+
+/-- ... and stable in both directions (Python's `sorted(reverse=True)` keeps the input order of
+    equal keys): two positions of the same kind with equivalent keys keep their input order. -/
+theorem vsortObj_stable {σ : Type} [Inhabited σ] {le : σ → σ → Bool} (h : PreOrd le)
+    (desc : Bool) (keys : List σ) (na : List Bool) :
+    (vsortObj le desc keys na).Pairwise
+      (fun i j => na[i]! = na[j]! → leDir le desc keys[j]! keys[i]! = true → i < j) :=
+  vsortObj_stable' h desc keys na
+
+/-! ### unique -/
+
+/-- unique returns each distinct value once, in order of first occurrence: the returned
+    positions are exactly the positions whose value did not occur earlier (the missing value is
+    a value equal to itself), increasing. -/
+theorem vunique_first_occurrence {le : κ → κ → Bool} (h : LinOrd le) (naFirst : Bool)
+    (xs : List (Option κ)) :
+    vunique le naFirst xs = firstOcc xs :=
+  vunique_eq_firstOcc h naFirst xs
+
+/-- spelled out on the values: no value twice, every value of the input present, positions
+    increasing. -/
+theorem vunique_each_value_once {le : κ → κ → Bool} (h : LinOrd le) (naFirst : Bool)
+    (xs : List (Option κ)) :
+    (gather xs (vunique le naFirst xs)).Nodup
+      ∧ (∀ x ∈ xs, x ∈ gather xs (vunique le naFirst xs))
+      ∧ (vunique le naFirst xs).Pairwise (fun i j => i < j) := by
+  rw [vunique_eq_firstOcc h]
+  exact ⟨firstOcc_values_nodup xs, firstOcc_covers xs, firstOcc_sorted xs⟩
+
+/-- the weaker hypothesis used above is satisfiable as well. -/
+theorem key_order_is_preorder : PreOrd Key.le := Key.le_linOrd.pre
+
+/-- non-vacuity / sanity on concrete vectors with ties and missing values. -/
+example : rankOrdSpec Key.le [some (.i 1), some (.i 1), none, none, some (.i 0)]
+    = [2, 3, 4, 5, 1] := by decide
+example : rankOrdSpec Key.le ([none, none, none] : List Cell) = [1, 2, 3] := by decide
+example : firstOcc [some (Key.i 1), none, some (.i 1), none, some (.i 0)] = [0, 1, 4] := by decide
+example : ([1, 3, 0, 2].map (objCell [Key.i 1, .i 2, .i 0, .i 2] [false, false, true, false])).Pairwise
+    (fun a b => ordDir Key.le true a b) := by decide
+example : [1, 3, 0, 2].Pairwise (fun i j => [false, false, true, false][i]! = [false, false, true, false][j]!
+    → leDir Key.le true [Key.i 1, .i 2, .i 0, .i 2][j]! [Key.i 1, .i 2, .i 0, .i 2][i]! = true → i < j) := by
+  decide
 
 end DI.C11
